@@ -1377,9 +1377,13 @@ class Py2Cpp(ITranspiler):
 	# Operator
 
 	def on_factor(self, node: defs.Factor, operator: str, value: str) -> str:
+		# XXX C++では符号が連続すると`++`/`--`と解釈されるため括弧で保護
+		value = f'({value})' if isinstance(node.value, defs.Factor) else value
 		return self.render(node, 'operation/unary_operator', vars={'operator': operator, 'value': value})
 
 	def on_not_compare(self, node: defs.NotCompare, operator: str, value: str) -> str:
+		# XXX C++の`!`は全ての2項演算子より優先度が高いため括弧で保護
+		value = f'({value})' if isinstance(node.value, defs.BinaryOperator) else value
 		return self.render(node, 'operation/unary_operator', vars={'operator': '!', 'value': value})
 
 	def on_or_compare(self, node: defs.OrCompare, elements: list[str]) -> str:
@@ -1411,6 +1415,11 @@ class Py2Cpp(ITranspiler):
 
 	def proc_binary_operation(self, node: defs.BinaryOperator, elements: list[str]) -> str:
 		node_of_elements = node.elements
+
+		# XXX C++ではビット演算子より比較演算子の優先度が高いため、比較演算の項がビット演算の場合は括弧で保護
+		if isinstance(node, defs.Comparison):
+			bitwise_types = (defs.OrBitwise, defs.XorBitwise, defs.AndBitwise)
+			elements = [f'({element})' if isinstance(in_node, bitwise_types) else element for in_node, element in zip(node_of_elements, elements)]
 
 		# インデックスを算出
 		operator_indexs = range(1, len(node_of_elements), 2)
